@@ -1915,7 +1915,7 @@ Proof.
   assert (0 <= Z.ldiff k y) by (apply Z.ldiff_nonneg; auto). lia.
 Qed.
 
-Lemma align_go_ge v b : 0 <= v -> 0 < b -> v + b - 1 < 2 ^ 64 -> v <= align_go v b.
+Lemma align_go_bounds v b : 0 <= v -> 0 < b -> v + b - 1 < 2 ^ 64 -> v <= align_go v b <= v + b - 1.
 Proof.
   intros Hv Hb Hlt. unfold align_go.
   rewrite (Z.mod_small (v + b - 1)) by lia.
@@ -1930,7 +1930,43 @@ Proof.
   rewrite E1. rewrite Z.ldiff_land. rewrite Z.land_assoc.
   rewrite (Z.land_ones y 64) by lia. rewrite (Z.mod_small y) by (subst y; lia).
   rewrite <- Z.ldiff_land. rewrite <- sub_land.
-  pose proof (land_le_r y k ltac:(lia)). subst y k. lia.
+  pose proof (land_le_r y k ltac:(lia)).
+  assert (0 <= Z.land y k) by (apply Z.land_nonneg; left; subst y; lia). subst y k. lia.
+Qed.
+
+Lemma align_go_ge v b : 0 <= v -> 0 < b -> v + b - 1 < 2 ^ 64 -> v <= align_go v b.
+Proof. intros. apply align_go_bounds; assumption. Qed.
+
+(* the blocks of the block-map entries after the first one (uint64 arithmetic, as Assemble adds them) *)
+Definition rest_sum (rest : list (Z * Z)) : Z :=
+  fold_left (fun a b => (a + fst b * snd b) mod U64) rest 0.
+
+Lemma fold_mod_nonneg rest : forall a, 0 <= a ->
+  0 <= fold_left (fun a b => (a + fst b * snd b) mod U64) rest a.
+Proof.
+  induction rest as [|x rest IH]; intros a Ha; cbn [fold_left]; [exact Ha|].
+  apply IH. apply Z.mod_pos_bound. unfold U64. lia.
+Qed.
+
+Lemma rest_sum_nonneg rest : 0 <= rest_sum rest.
+Proof. apply fold_mod_nonneg. lia. Qed.
+
+(* the length Assemble gives a volume it has to enlarge: the first entry is resized to whole blocks *)
+Definition grown_len (newlen s : Z) (rest : list (Z * Z)) : Z :=
+  (rest_sum rest + align_go (if rest_sum rest <? newlen then newlen - rest_sum rest else 0) s) mod U64.
+
+Lemma grown_len_ge newlen s rest : 0 <= newlen < 2 ^ 63 -> 0 < s < 2 ^ 32 -> rest_sum rest < 2 ^ 62 ->
+  newlen <= grown_len newlen s rest.
+Proof.
+  intros Hn Hs Hr. unfold grown_len. pose proof (rest_sum_nonneg rest) as R0.
+  set (rs := rest_sum rest) in *.
+  set (need := if rs <? newlen then newlen - rs else 0).
+  assert (Nd : 0 <= need <= newlen /\ newlen <= rs + need) by (subst need; destruct (rs <? newlen) eqn:E; lia).
+  change (2 ^ 63) with 9223372036854775808 in *. change (2 ^ 62) with 4611686018427387904 in *.
+  change (2 ^ 32) with 4294967296 in *.
+  pose proof (align_go_bounds need s ltac:(lia) ltac:(lia)) as B.
+  change (2 ^ 64) with 18446744073709551616 in B. specialize (B ltac:(lia)).
+  unfold U64. change (2 ^ 64) with 18446744073709551616. rewrite Z.mod_small by lia. lia.
 Qed.
 
 Lemma sub_splice_after off d (b : bytes) a l : 0 <= off -> off + zlen d <= zlen b -> off + zlen d <= a ->
@@ -1993,7 +2029,7 @@ Lemma asm_vol_inv pol ffs3 h buf files h' nb :
     zlen b5 = (if newlen <? len then len else newlen) /\
     (v_resizable h = false -> newlen <= len) /\
     (newlen <= len \/ exists c0 s0 rest, v_blocks h = (c0, s0) :: rest /\ s0 <> 0 /\
-                                        len = align_go newlen s0) /\
+                                        len = grown_len newlen s0 rest) /\
     v_hdrlen h <= newlen /\
     (newlen < len -> forall a l, 60 <= a -> newlen <= a ->
        sub a l b5 = sub (a - newlen) l (zrepeat pol (len - newlen))).
@@ -2014,17 +2050,18 @@ Proof.
   assert (exists len blocks,
     (if v_length h <? newlen
      then if s0 =? 0 then Err E_BLOCK0
-          else Ok (align_go newlen s0, ((align_go newlen s0 / s0) mod U32, s0) :: rest)
+          else Ok (grown_len newlen s0 rest,
+                   ((((grown_len newlen s0 rest - rest_sum rest) mod U64) / s0) mod U32, s0) :: rest)
      else Ok (v_length h, (c0, s0) :: rest)) = Ok (len, blocks) /\
     nblocks blocks = nblocks ((c0, s0) :: rest) /\ (v_resizable h = false -> newlen <= len) /\
-    (newlen <= len \/ (s0 <> 0 /\ len = align_go newlen s0))) as (len & blocks & Elb & Lb & Lr & Lg).
+    (newlen <= len \/ (s0 <> 0 /\ len = grown_len newlen s0 rest))) as (len & blocks & Elb & Lb & Lr & Lg).
   { destruct (v_length h <? newlen) eqn:EN.
     - destruct (s0 =? 0) eqn:Es0; [cbn [bind] in H; discriminate|].
       eexists _, _. split; [reflexivity|]. split; [cbn [nblocks]; rewrite Es0, !andb_false_r; reflexivity|]. split.
       + intros Hr. rewrite Hr in EG. cbn in EG. discriminate.
       + right. split; [lia|reflexivity].
     - eexists _, _. split; [reflexivity|]. split; [reflexivity|]. split; [intros _; lia|left; lia]. }
-  rewrite Elb in H. cbn [bind] in H.
+  unfold grown_len, rest_sum in Elb. rewrite Elb in H. cbn [bind] in H.
   set (b2 := if newlen <? len then b1 ++ zrepeat pol (len - newlen) else b1) in *.
   destruct (zlen b2 <? 40) eqn:E40; [discriminate|].
   set (b3 := splice 32 (le_enc 8 len) b2) in *.
@@ -2059,7 +2096,7 @@ Proof.
   rewrite zlen_app. unfold zrepeat.
   assert (R : forall n, zlen (repeatz pol n) = Z.of_nat n).
   { induction n as [|n IHn]; [reflexivity|]. cbn [repeatz]. rewrite zlen_cons, IHn. lia. }
-  rewrite R. fold newlen. lia.
+  rewrite R. fold newlen. apply Z.ltb_lt in EL. clear - EL. lia.
 Qed.
 
 (* C09_no_false_alarm, volumes *)
@@ -2159,7 +2196,8 @@ Qed.
 (* resizable (nested) volumes may grow to the next multiple of the block size *)
 Lemma asm_vol_len_any pol ffs3 h buf files h' nb :
   asm_vol pol ffs3 h buf files = Ok (h', nb) -> files <> [] ->
-  (forall c s rest, v_blocks h = (c, s) :: rest -> 0 < s < 2 ^ 32) -> zlen nb < 2 ^ 63 ->
+  (forall c s rest, v_blocks h = (c, s) :: rest -> 0 < s < 2 ^ 32 /\ rest_sum rest < 2 ^ 62) ->
+  zlen nb < 2 ^ 63 ->
   zlen nb = v_length h'.
 Proof.
   intros HA Hne Hs Hsmall.
@@ -2170,15 +2208,16 @@ Proof.
   rewrite zlen_splice in Hsmall |- * by (rewrite ?le2; lia). rewrite L6, L5 in *.
   destruct Lg as [Hle|(c0 & s0 & rest & EB & Hs0 & ->)].
   - destruct (newlen <? len) eqn:E; lia.
-  - specialize (Hs _ _ _ EB).
-    assert (newlen < 2 ^ 63) by (destruct (newlen <? align_go newlen s0) eqn:E; lia).
-    pose proof (align_go_ge newlen s0 ltac:(lia) ltac:(lia) ltac:(lia)).
-    destruct (newlen <? align_go newlen s0) eqn:E; lia.
+  - destruct (Hs _ _ _ EB) as [Hs1 Hs2].
+    assert (newlen < 2 ^ 63) by (destruct (newlen <? grown_len newlen s0 rest) eqn:E; lia).
+    pose proof (grown_len_ge newlen s0 rest ltac:(lia) Hs1 Hs2).
+    destruct (newlen <? grown_len newlen s0 rest) eqn:E; lia.
 Qed.
 
 Lemma no_false_alarm_volume_any pol ffs3 h buf files h' nb :
   asm_vol pol ffs3 h buf files = Ok (h', nb) -> files <> [] ->
-  (forall c s rest, v_blocks h = (c, s) :: rest -> 0 < s < 2 ^ 32) -> zlen nb < 2 ^ 63 ->
+  (forall c s rest, v_blocks h = (c, s) :: rest -> 0 < s < 2 ^ 32 /\ rest_sum rest < 2 ^ 62) ->
+  zlen nb < 2 ^ 63 ->
   pol = fv_polarity (v_attrs h) ->
   v_hdrlen h = 56 + 8 * (nblocks (v_blocks h) + 1) -> v_rev h = 2 -> v_sig h = c09_fv_signature ->
   known_fv_guid (v_guid h) = true ->
@@ -2209,7 +2248,8 @@ Qed.
 
 Lemma vol_asm_clean h buf kids' st n st' :
   vol_asm h buf kids' st = Ok (n, st') -> kids' <> [] ->
-  (forall c s rest, v_blocks h = (c, s) :: rest -> 0 < s < 2 ^ 32) -> zlen (node_buf n) < 2 ^ 63 ->
+  (forall c s rest, v_blocks h = (c, s) :: rest -> 0 < s < 2 ^ 32 /\ rest_sum rest < 2 ^ 62) ->
+  zlen (node_buf n) < 2 ^ 63 ->
   fst st = fv_polarity (v_attrs h) ->
   v_hdrlen h = 56 + 8 * (nblocks (v_blocks h) + 1) -> v_rev h = 2 -> v_sig h = c09_fv_signature ->
   known_fv_guid (v_guid h) = true ->
